@@ -1,4 +1,4 @@
-CONSTANTS P = 103  A = 0  B = 5  Gx = 2  Gy = 42  N = 97  Iterated = FALSE
+CONSTANTS P = 103  A = 0  B = 5  Gx = 2  Gy = 42  N = 97  Scope = "full"  Iterated = FALSE
 SPECIFICATION Spec
 INVARIANT GroupLaw
 CHECK_DEADLOCK FALSE
